@@ -15,9 +15,18 @@
 (* Operators prefixed BNn work on bare magnitudes (limb sequences without  *)
 (* high zero limbs, <<>> = 0) and are internal.                            *)
 (*                                                                         *)
+(* Exported: BNZero BNOne BN(i) BNMk(neg,m,e) BNIsZero BNSign BNNeg BNAbs  *)
+(* BNCmp(a,b) BNAdd BNSub BNMul BNMul2k(a,k) BNIsInt BNTrunc BNFloor       *)
+(* BNCeil BNRoundHalfAway BNRoundHalfEven BNFitsInt32 BNFitsInt64          *)
+(* BNToInt BNBitLen BNQuoTrunc(a,b) BNRem(a,b) BNIsDouble                  *)
+(* BNRoundToDouble(a) BNDivToDouble(a,b) BNIsRoundedQuotient(a,b,q)        *)
+(* BNFMod(a,b) BNFromDecimal(neg,digits,exp10) BNPow10(n); also BNInf(neg) *)
+(* = [inf |-> TRUE, neg |-> neg], the overflow result of the two ...Double *)
+(* operators (test with "inf" \in DOMAIN r).  There is no negative zero.   *)
+(*                                                                         *)
 (* Every intermediate TLC integer stays below 2^31: the largest is         *)
-(* (B-1)*(B-1) + (B-1) < 2^30.  \div and % are applied to non-negative     *)
-(* operands only.                                                          *)
+(* below 2^31 - 1 (native fast paths add two terms < 2^30).  \div and %   *)
+(* are applied to non-negative operands only.                              *)
 (***************************************************************************)
 EXTENDS Integers, Sequences
 
@@ -35,11 +44,12 @@ BNP5 == << 1, 5, 25, 125, 625, 3125 >>
 -----------------------------------------------------------------------------
 (* Magnitudes (natural numbers as limb sequences)                          *)
 
-(* TLC evaluates on the Java stack and one TLA+ recursion level costs       *)
-(* several KB of it, so no recursion here is deeper than about 16 + log2 n *)
-(* levels for n limbs: carry chains run linearly up to 16 limbs and by     *)
-(* divide and conquer (BNnChain) above that; searches and divisions split  *)
-(* their index range in halves.                                            *)
+(* TLC evaluates on the Java stack and one TLA+ recursion level costs      *)
+(* several KB of it (a 140-level limb loop overflows the default 1 MB),    *)
+(* so no recursion here is deeper than about 10 + log2 n levels for n      *)
+(* limbs: carry chains run linearly up to 10 limbs and by divide and       *)
+(* conquer in chunks of 8 (BNnChain) above that; searches, products,       *)
+(* divisions and decimal conversion split their index range in halves.     *)
 
 \* largest index in lo..hi holding a non-zero limb, lo-1 if there is none
 RECURSIVE BNnFindLast(_, _, _)
